@@ -89,8 +89,12 @@ class Relation:
             and self.card_max == other.card_max
         )
 
+    def _sort_key(self) -> tuple[str, list[str], int, int]:
+        parent_name = self.parent.name if self.parent else ""
+        return (parent_name, sorted(c.name for c in self.children), self.card_min, self.card_max)
+
     def __lt__(self, other: Any) -> bool:
-        return str(self) < str(other)
+        return self._sort_key() < other._sort_key()
 
 
 class FeatureType(Enum):
